@@ -65,6 +65,7 @@ class Placer:
         name, action = chain.events[chain.pos]
         chain.pos += 1
         action()
+        world.busy_streak = 0  # busy because the environment acts: no reason to accelerate the clock
         return name
 
     def __call__(self, world: World, sel: Any, timeout: float | None) -> None:
